@@ -799,10 +799,8 @@ def check_C50(rep):
     tm.phase("stimuli")
     # 2. stimuli
     jobs = []   # (ws, cpol, cpha, msb, cs_idles_high, origin, cycles)
-    sim_cfg = tlc.render_cfg(_cfg("MCSpiDev.cfg.tmpl"), {"WordSizes": "{1, 2, 3, 4}", "Modes": "{0, 1, 2, 3}",
-                                                         "Orders": "{TRUE, FALSE}", "MaxBits": 3, "MaxWords": 6,
-                                                         "MaxLat": 4})
-    behs = tlc.simulate(SPEC_DIR, "MCSpiDev", sim_cfg, num=60 if quick else 500, depth=90, seed=rep.seed * 19 + 7,
+    sim_cfg = tlc.render_cfg(_cfg("SimSpiDev.cfg.tmpl"), {"WordSizes": "{1, 2, 3, 4, 5}"})
+    behs = tlc.simulate(SPEC_DIR, "SimSpiDev", sim_cfg, num=60 if quick else 500, depth=140, seed=rep.seed * 19 + 7,
                         env=JVM_ENV)
     for b in behs:
         st0 = b[0][1]
